@@ -170,6 +170,19 @@ fn name_probes(pattern: &str) -> Vec<String> {
         dropped.pop();
         v.push(dropped.into_iter().collect());
     }
+    // the shortest instance ('*' matches nothing) and the name one character shorter than it:
+    // the boundary of patterns made of wildcards only (`*??` needs two characters)
+    let shortest: String = instance_of(&pattern.replace('*', ""));
+    if !shortest.is_empty() {
+        let mut s1: Vec<char> = shortest.chars().collect();
+        v.push(shortest.clone());
+        s1.pop();
+        if !s1.is_empty() {
+            v.push(s1.into_iter().collect());
+        }
+    }
+    v.push("a".to_string());
+    v.push("é".to_string());
     let mut changed: Vec<char> = inst.chars().collect();
     if let Some(c) = changed.first_mut() {
         *c = if *c == 'k' { 'j' } else { 'k' };
